@@ -63,6 +63,8 @@ def _styles(m, sp, el, st, kind):
     el.set_style(S.TextAlign, sp.TextAlignType[st["ta"]])
   if "dir" in st and kind == "p":
     el.set_style(S.Direction, sp.DirectionType[st["dir"]])
+  if "disp" in st:
+    el.set_style(S.Display, sp.DisplayType[st["disp"]])
 
 
 def build(d):
@@ -387,7 +389,25 @@ def random_doc(rng, rich=True):
     bst = blank["kids"][0]["st"]
     after = [{"k": "p", "reg": reg, "sp": "", "st": {}, "b": tstr(43 + 2 * k), "e": tstr(44 + 2 * k),
               "kids": [{"k": "span", "sp": "", "st": dict(bst) if rng.random() < 0.6 else {}, "kids": [{"k": "t", "s": "after%d" % k}]}]} for k in range(2)]
-    body.append({"k": "div", "reg": -1, "kids": [blank] + after})
+    extra = []
+    if nreg >= 2 and rng.random() < 0.5:
+      # ... or NOT alone: at the same time another region, earlier in region order, shows text (with one cue per region the
+      # blank paragraph still gives no cue)
+      blank["reg"] = nreg - 1
+      for r in (regions[0], regions[nreg - 1]):
+        r.pop("b", None)
+        r.pop("e", None)
+      extra = [{"k": "p", "reg": 0, "sp": "", "st": {}, "b": tstr(40), "e": tstr(42),
+                "kids": [{"k": "span", "sp": "", "st": {}, "kids": [{"k": "t", "s": "meanwhile"}]}]}]
+      if rng.random() < 0.7:
+        body = []                 # (nothing else in the document: the blank paragraph is alone in its region)
+    body.append({"k": "div", "reg": -1, "kids": extra + [blank] + after})
+  # a line break that is not presented (tts:display="none" on the br) between two texts of one line
+  if rng.random() < 0.1:
+    reg = rng.randrange(nreg) if nreg else -1
+    body.append({"k": "div", "reg": -1, "kids": [{"k": "p", "reg": reg, "sp": "", "st": {}, "b": tstr(50), "e": tstr(52), "kids": [
+      {"k": "span", "sp": "", "st": {}, "kids": [{"k": "t", "s": "one"}, {"k": "br", "st": {"disp": "none"}}, {"k": "t", "s": "line"},
+                                                   {"k": "br"}, {"k": "t", "s": "next"}]}]}]})
   return {"regions": regions, "body": body}
 
 
